@@ -1,5 +1,6 @@
 import FitModel.CsvSpec
 import FitProps.CsvTableLemmas
+import FitProps.CsvTableMoreLemmas
 /-! Lemmas about the fitconv model (C19). Core Lean only. -/
 namespace Fit.Csv
 open Fit.Value Fit.Msg Fit.Gen Fit.Gen.Csv
@@ -459,7 +460,7 @@ theorem field_rt_scaled (ar : Arith) (o : Opts) (ds : List Desc) (msg : Message)
     (hpm : pm ∈ profile) (hnum : pm.num = msg.num) (hn : msg.num < mfgRangeMin) (hp : p ∈ pm.fields)
     (hfn : fieldNumOf fld = p.num) (hdeg : o.degrees = false) (hraw : o.raw = false) (hsc : isScaledField p.scale p.offset = true)
     (hsub : substitute msg.fields p.subs = none) (harr : p.array = false) (hb : p.isBool = false)
-    (hv : isIntScalar fld.value = true)
+    (hv : isIntScalar fld.value = true) (hns : (p.bt == btString) = false)
     (har : ar.scaled fld.value p.bt p.scale p.offset = some fld.value) :
     readCell ar ds msg.num (writeField o msg fld) = .ok (.field (mkField p.num p.bt fld.value)) := by
   obtain ⟨h1, h2, h3, h4, h5, _⟩ := field_facts hpm (hnum ▸ hn) hp
@@ -475,6 +476,6 @@ theorem field_rt_scaled (ar : Arith) (o : Opts) (ds : List Desc) (msg : Message)
     cases hc : (txt p.units == degreesTxt && p.bt == btSint32)
     · rfl
     · simp only [Bool.and_eq_true, beq_iff_eq] at hc; exact absurd hc h5
-  simp [readCell, h3, h1, h2, harr, parseCellValue, parseAtom, hdg, hb, har]
+  simp [readCell, h3, h1, h2, harr, parseCellValue, parseAtom, hdg, hb, har, hns]
 
 end Fit.Csv
